@@ -7,10 +7,19 @@ package compiler
 // levels 0 and 2 in each type-checking mode, for every integer type.  Direct oracle: all
 // forms and levels leave the same value AND type in x, namely Go's wrapped result of type T.
 // The per-form results are also emitted as `stmt` protocol lines for the Lean model.
+//
+// The assignment TARGET is a dimension of its own: a plain variable, an array element with a
+// constant index and with a variable index, a struct field, a map element and an array inside a
+// struct (the compiler has a separate code path for ++/-- on a qualified lvalue, and element
+// stores go through StoreIndex instead of Store).  Element types are the ten integer kinds plus
+// float32/float64.  Second direct oracle (model-free, Go's own typed arithmetic): after the
+// statement the target still has its declared type and holds wrap(T, old ± k); the container
+// keeps its declared type and the neighbouring elements are untouched.
 
 import (
 	"fmt"
 	"strconv"
+	"strings"
 	"testing"
 
 	"github.com/tucats/ego/internal/cli/settings"
@@ -46,9 +55,196 @@ func c03sShow(v any) string {
 		return "ok int64 " + strconv.FormatInt(x, 10)
 	case uint64:
 		return "ok uint64 " + strconv.FormatUint(x, 10)
+	case float32:
+		return "ok float32 " + strconv.FormatFloat(float64(x), 'g', -1, 32)
+	case float64:
+		return "ok float64 " + strconv.FormatFloat(x, 'g', -1, 64)
 	}
 
 	return fmt.Sprintf("other %T %v", v, v)
+}
+
+// c03sWant is the model-free expectation: Go's own typed arithmetic on a value of the declared type.
+func c03sWant(kind, start string, add bool, k int) string {
+	si, _ := strconv.ParseInt(start, 10, 64)
+	ui, _ := strconv.ParseUint(start, 10, 64)
+	fl, _ := strconv.ParseFloat(start, 64)
+
+	switch kind {
+	case "byte":
+		x, d := byte(ui), byte(k)
+		if add {
+			x += d
+		} else {
+			x -= d
+		}
+		return c03sShow(x)
+	case "int8":
+		x, d := int8(si), int8(k)
+		if add {
+			x += d
+		} else {
+			x -= d
+		}
+		return c03sShow(x)
+	case "int16":
+		x, d := int16(si), int16(k)
+		if add {
+			x += d
+		} else {
+			x -= d
+		}
+		return c03sShow(x)
+	case "uint16":
+		x, d := uint16(ui), uint16(k)
+		if add {
+			x += d
+		} else {
+			x -= d
+		}
+		return c03sShow(x)
+	case "int32":
+		x, d := int32(si), int32(k)
+		if add {
+			x += d
+		} else {
+			x -= d
+		}
+		return c03sShow(x)
+	case "uint32":
+		x, d := uint32(ui), uint32(k)
+		if add {
+			x += d
+		} else {
+			x -= d
+		}
+		return c03sShow(x)
+	case "int":
+		x, d := int(si), int(k)
+		if add {
+			x += d
+		} else {
+			x -= d
+		}
+		return c03sShow(x)
+	case "uint":
+		x, d := uint(ui), uint(k)
+		if add {
+			x += d
+		} else {
+			x -= d
+		}
+		return c03sShow(x)
+	case "int64":
+		x, d := int64(si), int64(k)
+		if add {
+			x += d
+		} else {
+			x -= d
+		}
+		return c03sShow(x)
+	case "uint64":
+		x, d := uint64(ui), uint64(k)
+		if add {
+			x += d
+		} else {
+			x -= d
+		}
+		return c03sShow(x)
+	case "float32":
+		x, d := float32(fl), float32(k)
+		if add {
+			x += d
+		} else {
+			x -= d
+		}
+		return c03sShow(x)
+	case "float64":
+		x, d := fl, float64(k)
+		if add {
+			x += d
+		} else {
+			x -= d
+		}
+		return c03sShow(x)
+	}
+
+	return "?"
+}
+
+// c03sTarget is one kind of assignment target.  decl declares the container x (one fmt verb pair:
+// %[1]s = type name, %[2]s = start literal); lv is the lvalue text; read extracts the target's value
+// and a canonical rendering of everything else in the container (type + neighbours) from the final x.
+type c03sTarget struct {
+	name string
+	decl string
+	lv   string
+	read func(x any) (val any, rest string, err error)
+}
+
+func c03sArrayRead(x any) (any, string, error) {
+	a, ok := x.(*data.Array)
+	if !ok {
+		return nil, "", fmt.Errorf("x is %T, not an array", x)
+	}
+
+	if a.Len() != 3 {
+		return nil, "", fmt.Errorf("array length %d", a.Len())
+	}
+
+	v0, _ := a.Get(0)
+	v1, err := a.Get(1)
+	v2, _ := a.Get(2)
+
+	return v1, fmt.Sprintf("%s [0]=%s [2]=%s", a.TypeString(), c03sShow(v0), c03sShow(v2)), err
+}
+
+var c03sTargets = []c03sTarget{
+	{name: "var", decl: "x := %[1]s(%[2]s)\n", lv: "x",
+		read: func(x any) (any, string, error) { return x, "", nil }},
+	{name: "elem", decl: "x := []%[1]s{%[1]s(3), %[1]s(%[2]s), %[1]s(4)}\n", lv: "x[1]", read: c03sArrayRead},
+	{name: "elemvar", decl: "x := []%[1]s{%[1]s(3), %[1]s(%[2]s), %[1]s(4)}\ni := 1\n", lv: "x[i]", read: c03sArrayRead},
+	{name: "field", decl: "type T struct { e %[1]s; f %[1]s; g int }\nx := T{e: %[1]s(3), f: %[1]s(%[2]s), g: 4}\n", lv: "x.f",
+		read: func(x any) (any, string, error) {
+			s, ok := x.(*data.Struct)
+			if !ok {
+				return nil, "", fmt.Errorf("x is %T, not a struct", x)
+			}
+
+			v, found := s.Get("f")
+			if !found {
+				return nil, "", fmt.Errorf("field f is gone")
+			}
+
+			return v, fmt.Sprintf("%s e=%s g=%s", s.Type().Name(), c03sShow(s.GetAlways("e")), c03sShow(s.GetAlways("g"))), nil
+		}},
+	{name: "mapelem", decl: "x := map[string]%[1]s{\"a\": %[1]s(3), \"k\": %[1]s(%[2]s)}\n", lv: "x[\"k\"]",
+		read: func(x any) (any, string, error) {
+			m, ok := x.(*data.Map)
+			if !ok {
+				return nil, "", fmt.Errorf("x is %T, not a map", x)
+			}
+
+			v, found, err := m.Get("k")
+			if err != nil || !found {
+				return nil, "", fmt.Errorf("key k: found=%v err=%v", found, err)
+			}
+
+			va, _, _ := m.Get("a")
+
+			return v, fmt.Sprintf("map[%s]%s a=%s", m.KeyType().String(), m.ElementType().String(), c03sShow(va)), nil
+		}},
+	{name: "fieldelem", decl: "type T struct { a []%[1]s; g int }\nx := T{a: []%[1]s{%[1]s(3), %[1]s(%[2]s), %[1]s(4)}, g: 4}\n", lv: "x.a[1]",
+		read: func(x any) (any, string, error) {
+			s, ok := x.(*data.Struct)
+			if !ok {
+				return nil, "", fmt.Errorf("x is %T, not a struct", x)
+			}
+
+			v, rest, err := c03sArrayRead(s.GetAlways("a"))
+
+			return v, rest + " g=" + c03sShow(s.GetAlways("g")), err
+		}},
 }
 
 // c03sRun compiles and runs a fragment and returns the final value of x.
@@ -105,6 +301,17 @@ func TestVerifC03Source(t *testing.T) {
 		"int32": {"-2147483648", "2147483647", "5", "0"}, "uint32": {"0", "4294967295", "77"},
 		"int": {"0", "5", "-3", "9223372036854775807"}, "uint": {"0", "12", "9223372036854775807"},
 		"int64": {"-5", "0", "9223372036854775807"}, "uint64": {"0", "3", "9223372036854775807"},
+		"float32": {"1.5", "-0.5", "100.25"}, "float64": {"1.5", "-0.5", "1e+15"},
+	}
+
+	// The qualified targets use a thinned start list in the quick tier (the wrap boundaries and one
+	// interior value); the plain variable keeps the full list.
+	thin := func(tg string, l []string) []string {
+		if tg == "var" || verifh.Thorough() || len(l) <= 2 {
+			return l
+		}
+
+		return []string{l[1], l[len(l)-1]}
 	}
 
 	n := 1
@@ -113,71 +320,103 @@ func TestVerifC03Source(t *testing.T) {
 	}
 
 	for round := 0; round < n; round++ {
-		for _, kind := range c03sKinds {
-			for _, start := range starts[kind] {
-				k := 1
-				if round > 0 {
-					k = 1 + r.Intn(120)
-				}
+		for _, tg := range c03sTargets {
+			for _, kind := range append(append([]string{}, c03sKinds...), "float32", "float64") {
+				isFloat := strings.HasPrefix(kind, "float")
 
-				for _, sign := range []string{"+", "-"} {
-					op := map[string]string{"+": "add", "-": "sub"}[sign]
-					decl := fmt.Sprintf("x := %s(%s)\n", kind, start)
-
-					if kind == "uint" || kind == "uint64" || kind == "int" || kind == "int64" {
-						// large literals: build by parsing at run time is not needed; the cast accepts the literal
-						decl = fmt.Sprintf("x := %s(%s)\n", kind, start)
+				for _, start := range thin(tg.name, starts[kind]) {
+					k := 1
+					if round > 0 {
+						k = 1 + r.Intn(120)
 					}
 
-					forms := map[string]string{
-						"assign": fmt.Sprintf("x = x %s %d\n", sign, k),
-						"opassign": fmt.Sprintf("x %s= %d\n", sign, k),
-					}
-					if k == 1 {
-						forms["incdec"] = "x" + sign + sign + "\n"
-					}
+					for _, sign := range []string{"+", "-"} {
+						op := map[string]string{"+": "add", "-": "sub"}[sign]
+						decl := fmt.Sprintf(tg.decl, kind, start)
+						want := c03sWant(kind, start, sign == "+", k)
 
-					for _, m := range modes {
-						var ref string
+						// class suffix: the plain-variable classes keep their historical ids
+						sfx := ""
+						if tg.name != "var" {
+							sfx = ":" + tg.name
+						}
 
-						refSet := false
+						forms := map[string]string{
+							"assign":   fmt.Sprintf("%s = %s %s %d\n", tg.lv, tg.lv, sign, k),
+							"opassign": fmt.Sprintf("%s %s= %d\n", tg.lv, sign, k),
+						}
+						if k == 1 {
+							forms["incdec"] = tg.lv + sign + sign + "\n"
+						}
 
-						for _, opt := range []int{0, 2} {
-							for _, fname := range []string{"assign", "opassign", "incdec"} {
-								stmt, ok := forms[fname]
-								if !ok {
-									continue
-								}
+						for _, m := range modes {
+							var ref, refRest string
 
-								v, err := c03sRun(m.v, opt, decl+stmt)
-								got := ""
+							refSet := false
 
-								if err != nil {
-									got = "err " + err.Error()
-								} else {
-									got = c03sShow(v)
-								}
+							for _, opt := range []int{0, 2} {
+								for _, fname := range []string{"assign", "opassign", "incdec"} {
+									stmt, ok := forms[fname]
+									if !ok {
+										continue
+									}
 
-								stats.Inc("runs")
+									var (
+										v    any
+										rest string
+									)
 
-								in := fmt.Sprintf("stmt %s 0 %s %s %s c:int:%d", m.name, op, kind, start, k)
-								cases.Write(verifh.Case{In: in, Impl: got, Desc: fmt.Sprintf("form=%s opt=%d src=%q", fname, opt, decl+stmt)})
+									x, err := c03sRun(m.v, opt, decl+stmt)
+									if err == nil {
+										v, rest, err = tg.read(x)
+									}
 
-								if !refSet {
-									ref, refSet = got, true
+									got := ""
 
-									stats.Inc("distinct_nontrivial")
-									stats.Sample(map[string]string{"src": decl + stmt, "mode": m.name, "result": got})
-								} else if got != ref {
-									fails.Write(verifh.Failure{Class: "forms-disagree:" + m.name + ":" + kind,
-										What:  "x++ / x += k / x = x + k (or optimizer levels 0 and 2) leave different value or type in x",
-										Input: fmt.Sprintf("mode=%s opt=%d form=%s src=%q", m.name, opt, fname, decl+stmt), Got: got, Want: ref})
-								}
+									if err != nil {
+										got = "err " + err.Error()
+									} else {
+										got = c03sShow(v)
+									}
 
-								if err != nil || len(got) < 4+len(kind) || got[3:3+len(kind)+1] != kind+" " {
-									fails.Write(verifh.Failure{Class: "form-fails-or-drifts:" + m.name + ":" + kind,
-										What:  "statement on an integer variable with a constant step fails or changes the variable's type",
-										Input: fmt.Sprintf("mode=%s opt=%d form=%s src=%q", m.name, opt, fname, decl+stmt), Got: got})
+									stats.Inc("runs")
+									stats.Inc("runs." + tg.name)
+
+									input := fmt.Sprintf("mode=%s opt=%d target=%s form=%s src=%q", m.name, opt, tg.name, fname, decl+stmt)
+
+									// The model's `stmt` line describes Load/Push c/op/Store on a value of kind `kind`; with a
+									// constant step the result already has that kind, so every store boundary (Store, StoreIndex)
+									// is the identity on it and the same line applies to every target.
+									if !isFloat {
+										in := fmt.Sprintf("stmt %s 0 %s %s %s c:int:%d", m.name, op, kind, start, k)
+										cases.Write(verifh.Case{In: in, Impl: got, Desc: fmt.Sprintf("target=%s form=%s opt=%d src=%q", tg.name, fname, opt, decl+stmt)})
+									}
+
+									if !refSet {
+										ref, refRest, refSet = got, rest, true
+
+										stats.Inc("distinct_nontrivial")
+
+										if tg.name != "var" {
+											stats.Inc("distinct_nontrivial.qualified")
+										}
+
+										stats.Sample(map[string]string{"src": decl + stmt, "mode": m.name, "result": got})
+									} else if got != ref || rest != refRest {
+										fails.Write(verifh.Failure{Class: "forms-disagree:" + m.name + ":" + kind + sfx,
+											What:  "x++ / x += k / x = x + k (or optimizer levels 0 and 2) leave different value or type in the target (or its container)",
+											Input: input, Got: got + " | " + rest, Want: ref + " | " + refRest})
+									}
+
+									if err != nil || len(got) < 4+len(kind) || got[3:3+len(kind)+1] != kind+" " {
+										fails.Write(verifh.Failure{Class: "form-fails-or-drifts:" + m.name + ":" + kind + sfx,
+											What:  "statement on a numeric variable, element or field with a constant step fails or changes the target's type",
+											Input: input, Got: got, Want: want})
+									} else if got != want {
+										fails.Write(verifh.Failure{Class: "wrong-value:" + m.name + ":" + kind + sfx,
+											What:  "the target does not hold Go's wrapped result wrap(T, old ± k) of its declared type",
+											Input: input, Got: got, Want: want})
+									}
 								}
 							}
 						}
